@@ -11,6 +11,7 @@ RULE = ("ops {sigmoid, tanh, selu, softmax, log_softmax (every dim, ranks 1-3), 
         "stable closed-form float64 value and gradient (validated against mpmath at 50 digits on a sub-sample each run); tolerance 1e-5*max(1,"
         "max|x|) + 1e-5*|exact| and finiteness; distinct key = (op, form, dtype, input class, args); non-trivial = max|x| >= 20")
 RULE += (' Added after the seeded rounds: the gradient with respect to learnable soft targets of BCE-with-logits.')
+RULE += (" Round 6 / reach monitor: every fourth case under NumPy's own error settings after legal overflowing calls, with NumPy's process-wide error state compared before / after; operands stored as transposed / strided views; the result tensor unchanged by backward.")
 ASSUMPTIONS = ["single-precision accuracy relative to the input magnitude is read as |err| <= 1e-5*max(1,max|x|) + 1e-5*|exact|, for both dtypes",
                "float32 cases: the exact result is computed in float64 from the float32-rounded inputs",
                "RuntimeWarnings (overflow in exp with a correct finite final result) are ignored"]
